@@ -10,6 +10,7 @@
 #include <cstdio>
 #include <exception>
 #include <iostream>
+#include <limits>
 #include <optional>
 #include <sstream>
 #include <stdexcept>
@@ -49,7 +50,7 @@ class Arch {
   template <typename D, std::enable_if_t<std::is_floating_point_v<D>, bool> = true>
   Arch(D) = delete;
 
-  static Arch make(const std::string &num, const std::string &den) {
+  static Arch make(const std::string &num, const std::string &den = "1") {
     return Arch(FromRat{}, Rat(boost::multiprecision::cpp_int(num),
                                boost::multiprecision::cpp_int(den)));
   }
@@ -76,12 +77,22 @@ class Arch {
   friend bool operator>=(const Arch &a, const Arch &b) { return a._v >= b._v; }
 };
 
+// The archetype really is minimal: no implicit conversions from built-in numbers,
+// no numeric_limits, no stream output.
+static_assert(!std::is_convertible_v<int, Arch> && !std::is_convertible_v<double, Arch> &&
+              !std::is_convertible_v<Arch, double> && !std::is_constructible_v<Arch, double>);
+static_assert(!std::numeric_limits<Arch>::is_specialized);
+
 #include <bspline/Core.h>
 #include <bspline/interpolation/interpolation.h>
 
 namespace vh {
 
-using S = Arch;
+#ifdef VERIF_FP
+using S = VERIF_FP;   // rounding tier: float, double or long double (inputs are exactly representable)
+#else
+using S = Arch;       // exact tier
+#endif
 using bspline::Spline;
 using bspline::support::Grid;
 using bspline::support::Support;
@@ -91,20 +102,45 @@ using bspline::integration::LinearForm;
 using bspline::exceptions::BSplineException;
 using bspline::exceptions::ErrorCode;
 
-inline S Q(const char *n, const char *d = "1") { return Arch::make(n, d); }
+// scalar I/O, selected by the scalar type (exact fractions / hex floats)
+template <typename T, typename = void>
+struct ScalarIO;
+template <>
+struct ScalarIO<Arch> {
+  static Arch make(const char *n, const char *d) { return Arch::make(n, d); }
+  static std::string str(const Arch &x) {
+    const auto &r = x.rep();
+    auto num = boost::multiprecision::numerator(r);
+    auto den = boost::multiprecision::denominator(r);
+    std::string s = num.str();
+    if (den != 1) s += "/" + den.str();
+    return s;
+  }
+};
+template <typename T>
+struct ScalarIO<T, std::enable_if_t<std::is_floating_point_v<T>>> {
+  static T make(const char *n, const char *d) {
+    return static_cast<T>(static_cast<T>(std::stold(n)) / static_cast<T>(std::stold(d)));
+  }
+  static std::string str(const T &x) {
+    char buf[96];
+    if constexpr (std::is_same_v<T, long double>) {
+      std::snprintf(buf, sizeof buf, "%La", x);
+    } else {
+      std::snprintf(buf, sizeof buf, "%a", static_cast<double>(x));
+    }
+    return buf;
+  }
+};
+
+inline S Q(const char *n, const char *d = "1") { return ScalarIO<S>::make(n, d); }
 
 // ---------- canonical printing ----------
 struct Out {
   std::ostringstream os;
   void tag(const char *t) { os << ' ' << t; }
   void n(unsigned long long v) { os << ' ' << v; }
-  void f(const S &x) {
-    const auto &r = x.rep();
-    auto num = boost::multiprecision::numerator(r);
-    auto den = boost::multiprecision::denominator(r);
-    os << ' ' << num.str();
-    if (den != 1) os << '/' << den.str();
-  }
+  void f(const S &x) { os << ' ' << ScalarIO<S>::str(x); }
   void b(bool v) { tag(v ? "true" : "false"); }
   void opt(const std::optional<size_t> &o) {
     if (o) { tag("SOME"); n(*o); } else { tag("NONE"); }
